@@ -208,14 +208,16 @@ Proof. intros H. apply from_archive_congr; [apply (oe_data a a' H) | apply (oe_l
    [file_bound] is an upper bound of the image size (the name pool shares equal names). *)
 Definition label_count (a : archive) : N := N.of_nat (length (concat (map snd (a_labels a)))).
 Definition name_bytes (a : archive) : N := N.of_nat (length (concat (map (fun l : bytes => l ++ [0]) (concat (map snd (a_labels a)))))).
-Definition file_bound (a : archive) : N := 32 + size a + 8 * label_count a + name_bytes a.
+(* 32 header bytes + 3 spare bytes (the generic bound of the bin-archive development counts the padding of the
+   - here empty - c-string pool), the data, 8 bytes per label-table entry, every name with its terminator *)
+Definition file_bound (a : archive) : N := 35 + size a + 8 * label_count a + name_bytes a.
 
 Definition plain_labelled (a : archive) : Prop :=
   a_text a = [] /\ a_ptrs a = [] /\ a_cstrs a = [] /\
   wfb (a_data a) /\
   NoDup (am_keys (a_labels a)) /\
   (forall address bucket, In (address, bucket) (a_labels a) ->
-     address <= size a /\ Forall (fun l => wfb l /\ ~ In 0 l) bucket) /\
+     address <= size a /\ bucket <> [] /\ Forall (fun l => wfb l /\ ~ In 0 l) bucket) /\
   file_bound a < 2 ^ 32.
 
 (* what the byte level needs on top of wf_text: real bytes / 16-bit units, NUL-free keys, a file below 4 GiB *)
@@ -249,6 +251,8 @@ Proof.
   - rewrite text_image_label_keys. apply offsets_nodup.
   - cbn [text_image a_labels] in H. unfold labels_of in H. apply in_map_iff in H. destruct H as ([k off] & E & Hin).
     cbn [fst snd] in E. injection E as Ea Eb. subst address bucket. apply offsets_bounds in Hin. unfold size. cbn [text_image a_data]. rewrite lenN_app. lia.
+  - cbn [text_image a_labels] in H. unfold labels_of in H. apply in_map_iff in H. destruct H as ([k off] & E & Hin).
+    cbn [fst snd] in E. injection E as Ea Eb. subst address bucket. discriminate.
   - cbn [text_image a_labels] in H. unfold labels_of in H. apply in_map_iff in H. destruct H as ([k off] & E & Hin).
     cbn [fst snd] in E. injection E as Ea Eb. subst address bucket. constructor; [|constructor].
     assert (Hk : In k (map fst (t_entries t))).
